@@ -1180,3 +1180,53 @@ package scipipe
 //@   loop 0 invariant notified: forall r string :: $visited[r] ==> pcloseCalls[old(pop.RemotePorts[r])] == old(pcloseCalls)[old(pop.RemotePorts[r])] + 1
 //@   loop 0 invariant not-yet: forall q *InParamPort :: !(exists r string :: $visited[r] && old(pop.RemotePorts[r]) == q) ==> pcloseCalls[q] == old(pcloseCalls)[q]
 //@   loop 0 invariant nothing-sent: forall c chan string :: !fresh(c) ==> chanSentN(c) == old(chanSentN(c))
+
+// ---------------------------------------------------------------------------
+// C04: one item per in-port per task (baseprocess.go)
+// ---------------------------------------------------------------------------
+
+//@ define wfInPorts(m map[string]*InPort) bool = m != nil && (forall k string :: k in m ==> m[k] != nil && m[k].Chan != nil) && (forall k1 string, k2 string :: k1 in m && k2 in m && k1 != k2 ==> m[k1].Chan != m[k2].Chan)
+//@ define isInChan(m map[string]*InPort, c chan *FileIP) bool = exists k string :: k in m && m[k].Chan == c
+
+//@ func (*BaseProcess).receiveOnInPorts(p) (ips, inPortsOpen)
+//@   props C04 C08
+//@   requires wf: wfInPorts(p.inPorts)
+//@   modifies chan, new(map[string]*FileIP)
+//@   ensures fresh: fresh(ips) && ips != nil
+//@   ensures one-receive-per-port: forall k string :: k in p.inPorts ==> chanRecvA(p.inPorts[k].Chan) == old(chanRecvA(p.inPorts[k].Chan)) + 1 && chanRecvN(p.inPorts[k].Chan) == old(chanRecvN(p.inPorts[k].Chan)) + ite(old(chanRecvN(p.inPorts[k].Chan)) < chanTotal(p.inPorts[k].Chan), 1, 0)
+//@   ensures open-iff-every-port-delivered: inPortsOpen <==> (forall k string :: k in p.inPorts ==> old(chanRecvN(p.inPorts[k].Chan)) < chanTotal(p.inPorts[k].Chan))
+//@   ensures items-in-arrival-order: forall k string :: k in p.inPorts && old(chanRecvN(p.inPorts[k].Chan)) < chanTotal(p.inPorts[k].Chan) ==> k in ips && ips[k] == chanInAt(p.inPorts[k].Chan, old(chanRecvN(p.inPorts[k].Chan)))
+//@   ensures only-ports: forall k string :: k in ips ==> k in p.inPorts
+//@   ensures other-channels-untouched: forall c chan *FileIP :: !fresh(c) && !isInChan(p.inPorts, c) ==> chanRecvN(c) == old(chanRecvN(c)) && chanRecvA(c) == old(chanRecvA(c))
+//@   ensures nothing-sent: forall c chan *FileIP :: !fresh(c) ==> chanSentN(c) == old(chanSentN(c))
+//@   loop 0 invariant fresh: fresh(ips) && ips != nil
+//@   loop 0 invariant vis: forall k string :: $visited[k] ==> k in p.inPorts
+//@   loop 0 invariant done: forall k string :: $visited[k] ==> chanRecvA(p.inPorts[k].Chan) == old(chanRecvA(p.inPorts[k].Chan)) + 1 && chanRecvN(p.inPorts[k].Chan) == old(chanRecvN(p.inPorts[k].Chan)) + ite(old(chanRecvN(p.inPorts[k].Chan)) < chanTotal(p.inPorts[k].Chan), 1, 0)
+//@   loop 0 invariant not-yet: forall k string :: k in p.inPorts && !$visited[k] ==> chanRecvA(p.inPorts[k].Chan) == old(chanRecvA(p.inPorts[k].Chan)) && chanRecvN(p.inPorts[k].Chan) == old(chanRecvN(p.inPorts[k].Chan))
+//@   loop 0 invariant open: inPortsOpen <==> (forall k string :: $visited[k] ==> old(chanRecvN(p.inPorts[k].Chan)) < chanTotal(p.inPorts[k].Chan))
+//@   loop 0 invariant items: forall k string :: $visited[k] && old(chanRecvN(p.inPorts[k].Chan)) < chanTotal(p.inPorts[k].Chan) ==> k in ips && ips[k] == chanInAt(p.inPorts[k].Chan, old(chanRecvN(p.inPorts[k].Chan)))
+//@   loop 0 invariant only-ports: forall k string :: k in ips ==> $visited[k]
+//@   loop 0 invariant others: forall c chan *FileIP :: !fresh(c) && !isInChan(p.inPorts, c) ==> chanRecvN(c) == old(chanRecvN(c)) && chanRecvA(c) == old(chanRecvA(c))
+//@   loop 0 invariant nothing-sent: forall c chan *FileIP :: !fresh(c) ==> chanSentN(c) == old(chanSentN(c))
+
+//@ define wfInParamPorts(m map[string]*InParamPort) bool = m != nil && (forall k string :: k in m ==> m[k] != nil && m[k].Chan != nil) && (forall k1 string, k2 string :: k1 in m && k2 in m && k1 != k2 ==> m[k1].Chan != m[k2].Chan)
+//@ define isInParamChan(m map[string]*InParamPort, c chan string) bool = exists k string :: k in m && m[k].Chan == c
+
+//@ func (*BaseProcess).receiveOnInParamPorts(p) (params, paramPortsOpen)
+//@   props C04 C08
+//@   requires wf: wfInParamPorts(p.inParamPorts)
+//@   modifies chan, new(map[string]string)
+//@   ensures fresh: fresh(params) && params != nil
+//@   ensures one-receive-per-port: forall k string :: k in p.inParamPorts ==> chanRecvA(p.inParamPorts[k].Chan) == old(chanRecvA(p.inParamPorts[k].Chan)) + 1 && chanRecvN(p.inParamPorts[k].Chan) == old(chanRecvN(p.inParamPorts[k].Chan)) + ite(old(chanRecvN(p.inParamPorts[k].Chan)) < chanTotal(p.inParamPorts[k].Chan), 1, 0)
+//@   ensures open-iff-every-port-delivered: paramPortsOpen <==> (forall k string :: k in p.inParamPorts ==> old(chanRecvN(p.inParamPorts[k].Chan)) < chanTotal(p.inParamPorts[k].Chan))
+//@   ensures items-in-arrival-order: forall k string :: k in p.inParamPorts && old(chanRecvN(p.inParamPorts[k].Chan)) < chanTotal(p.inParamPorts[k].Chan) ==> k in params && params[k] == chanInAt(p.inParamPorts[k].Chan, old(chanRecvN(p.inParamPorts[k].Chan)))
+//@   ensures only-ports: forall k string :: k in params ==> k in p.inParamPorts
+//@   ensures other-channels-untouched: forall c chan string :: !fresh(c) && !isInParamChan(p.inParamPorts, c) ==> chanRecvN(c) == old(chanRecvN(c)) && chanRecvA(c) == old(chanRecvA(c))
+//@   loop 0 invariant fresh: fresh(params) && params != nil
+//@   loop 0 invariant vis: forall k string :: $visited[k] ==> k in p.inParamPorts
+//@   loop 0 invariant done: forall k string :: $visited[k] ==> chanRecvA(p.inParamPorts[k].Chan) == old(chanRecvA(p.inParamPorts[k].Chan)) + 1 && chanRecvN(p.inParamPorts[k].Chan) == old(chanRecvN(p.inParamPorts[k].Chan)) + ite(old(chanRecvN(p.inParamPorts[k].Chan)) < chanTotal(p.inParamPorts[k].Chan), 1, 0)
+//@   loop 0 invariant not-yet: forall k string :: k in p.inParamPorts && !$visited[k] ==> chanRecvA(p.inParamPorts[k].Chan) == old(chanRecvA(p.inParamPorts[k].Chan)) && chanRecvN(p.inParamPorts[k].Chan) == old(chanRecvN(p.inParamPorts[k].Chan))
+//@   loop 0 invariant open: paramPortsOpen <==> (forall k string :: $visited[k] ==> old(chanRecvN(p.inParamPorts[k].Chan)) < chanTotal(p.inParamPorts[k].Chan))
+//@   loop 0 invariant items: forall k string :: $visited[k] && old(chanRecvN(p.inParamPorts[k].Chan)) < chanTotal(p.inParamPorts[k].Chan) ==> k in params && params[k] == chanInAt(p.inParamPorts[k].Chan, old(chanRecvN(p.inParamPorts[k].Chan)))
+//@   loop 0 invariant only-ports: forall k string :: k in params ==> $visited[k]
+//@   loop 0 invariant others: forall c chan string :: !fresh(c) && !isInParamChan(p.inParamPorts, c) ==> chanRecvN(c) == old(chanRecvN(c)) && chanRecvA(c) == old(chanRecvA(c))
